@@ -181,7 +181,7 @@ def norm_tree(t, parent=None):
     if kind == 'Raw':
         return ('Raw', tuple(k for k in kids if k[0] in ('RawDelim', 'RawLang')))
     if kind == 'Equation':
-        block = len(x) > 1 and x[1][0] == 'Space'
+        block = len(x) > 2 and x[1][0] == 'Space' and x[-2][0] == 'Space'      # typst: Equation::block()
         return ('Equation', block, tuple(kids))
     return (kind, tuple(kids))
 
@@ -271,7 +271,7 @@ def eval_tree(t, parent=None, root=True):
     if kind == 'Raw':
         return ('Raw', tuple(k for k in kids if k[0] in ('RawDelim', 'RawLang')))
     if kind == 'Equation':
-        block = len(x) > 1 and x[1][0] == 'Space'
+        block = len(x) > 2 and x[1][0] == 'Space' and x[-2][0] == 'Space'      # typst: Equation::block()
         kids = [k for k in kids if k != ('Space',)]
         return ('Equation', block, tuple(kids))
     return (kind, tuple(kids))
@@ -316,6 +316,22 @@ def prose_lines_broken(tree, tree2):
                 groups[-1].append(c)
         return [g for g in groups if g]
 
+    def must_expand(t):
+        """constructs the printer lays out over several lines whatever the line holds: a table / grid call it formats in rows, a code block with
+        several statements or a comment (design decisions of the printer, not the break suppression this property is about)"""
+        k, x = t
+        if not isinstance(x, list):
+            return False
+        if k == 'FuncCall' and x and x[0][0] == 'Ident' and x[0][1] in ('table', 'grid') and 'columns' in source_of(t):
+            return True
+        if k == 'CodeBlock':
+            for c in x:
+                if c[0] in ('LineComment', 'BlockComment'):
+                    return True
+                if c[0] == 'Code' and (sum(1 for d_ in c[1] if d_[0] not in ('Space', 'Semicolon', 'LineComment', 'BlockComment')) > 1 or any(d_[0] in ('LineComment', 'BlockComment') for d_ in c[1])):
+                    return True
+        return any(must_expand(c) for c in x)
+
     def walk(a, b):
         ka, xa = a
         kb, xb = b
@@ -336,11 +352,11 @@ def prose_lines_broken(tree, tree2):
                         for gi, gb in enumerate(lb):
                             for _ in gb:
                                 owner.append(gi)
-                        if len({owner[pos + j] for j in range(len(g))}) != 1:
+                        if len({owner[pos + j] for j in range(len(g))}) != 1 and not any(must_expand(c) for c in g):
                             return 'the line %r is spread over several lines' % ''.join(source_of(c) for c in g)[:60]
                         for j, c in enumerate(g):
                             sa, sb = source_of(c), source_of(flat_b[pos + j])
-                            if nl(sa) == 0 and nl(sb) > 0:
+                            if nl(sa) == 0 and nl(sb) > 0 and not must_expand(c):
                                 return 'on the line %r the element %r now spans lines: %r' % (''.join(source_of(c2) for c2 in g)[:50], sa[:30], sb[:40])
                     pos += len(g)
         ca = [c for c in xa if isinstance(c[1], list)]
@@ -370,8 +386,71 @@ COMMENT_DOCS += ['#import "m": (a // c\nas b)\n', '#import "m": (a as // c\n b)\
                  '#f(a: // c\n 1, b)\n', '#(a. // c\nb, c)\n', '#f(x => // c\n x)\n', '#(a, (b // c\n, d))\n', '#f(g(a // c\n))\n', '#f[a // c\n]\n', '#let x = (a // c\n)\n']
 
 
-def _unused():
-    pass
+# -- generated families: construct x spelling x context x comment position ---------------------------------------------------------------
+
+CONSTRUCTS = [
+    # (compact / oddly spaced spelling, spelling over several lines)
+    ('f(a,b)', 'f(\n a ,\n  b\n)'), ('f( a )[c]', 'f(\na)[\n c\n]'), ('f[c  d]', 'f[\nc\n d]'), ('(a,b)', '(\na,\nb ,)'), ('(k:v,j :w)', '(k: v,\n\n j: w)'), ('(a)', '(\na\n)'),
+    ('a.b.c(d)', 'a\n.b\n.c(\nd)'), ('a+b*c', 'a +\n b\n * c'), ('x=>x+1', 'x =>\n x + 1'), ('(x,y)=>x', '(\nx,\ny) => {\nx\n}'), ('let v=f(a)', 'let v =\n f(\na)'), ('set text( red )', 'set text(\nred)'),
+    ('show h:it=>it', 'show h:\n it => it'), ('if a {b} else {c}', 'if a {\nb\n} else {\nc\n}'), ('for x in y {z}', 'for x in y {\nz\n}'), ('while a {b}', 'while a {\n b\n}'),
+    ('import "m":a,b as c', 'import "m":\n a,\n b as c'), ('import "m":(a,b)', 'import "m": (\na,\nb)'), ('include "m"', 'include\n "m"'), ('{a;b}', '{\na\n\n\nb\n}'), ('[c *d*]', '[\nc\n\n*d*\n]'),
+    ('f(..a,k:v)', 'f(..a,\nk: v)'), ('(not a)', '(not\n a)'), ('(-a)', '(-\na)'), ('(a in b)', '(a\n in b)'), ('(a:1).k', '(a:\n1).k'), ('f(g(h(a)))', 'f(g(\nh(a)))'),
+    ('table(columns:2,[a],[b])', 'table(\ncolumns: 2,\n[a], [b],\n[c])'), ('context x', 'context {\nx\n}'), ('let (a,b)=c', 'let (a,\n b) = c'), ('(a,b)=(b,a)', '(a, b) =\n (b, a)'),
+    ('f(x)(y)', 'f(x)(\ny)'), ('f(a)[b][c]', 'f(a)[b][\nc]'), ('a.b[c]', 'a.b[\nc]'), ('(a: b, ..c)', '(a: b,\n..c)'), ('"s"+"t"', '"s" +\n"t"'), ('1pt+2em', '1pt\n+ 2em'), ('none', 'none'),
+    ('$a+b$', '$ a +\n b $'), ('$f(a,b;c)$', '$ f(a, b;\n c) $'), ('$x_1^2/y$', '$ x_1^2 /\n y $'), ('`r`', '```\nr\n```'),
+]
+CONTEXTS = [
+    ('own line', '#%s\n'), ('text line', 't #%s u\n'), ('list item', '- #%s\n'), ('list item with text', '- t #%s\n  u\n'), ('content block', '#[t #%s]\n'), ('strong', '*#%s*\n'), ('heading', '= H #%s\n'),
+    ('term', '/ T: #%s\n'), ('equation', '$ #%s $\n'), ('equation on a text line', 't $x + #%s$ u\n'), ('code block', '#{\n  %s\n}\n'), ('argument', '#g(%s)\n'), ('content argument', '#g[#%s]\n'),
+    ('let value', '#let w = %s\n'), ('closure body', '#(q => %s)\n'),
+]
+
+
+def _token_gaps(text):
+    """positions between tokens of a code fragment (not inside strings / raw text)"""
+    import re as _re
+    pos = []
+    for mm in _re.finditer(r'"[^"]*"|`+[^`]*`+|[A-Za-z_][A-Za-z0-9_-]*|[0-9]+(?:\.[0-9]+)?[a-z%]*|=>|==|\.\.|[^\sA-Za-z0-9_]', text):
+        pos.append(mm.start())
+        pos.append(mm.end())
+    return sorted({p_ for p_ in pos if 0 < p_ < len(text)})
+
+
+def families(S, comments=True, seed=0, limit=None):
+    """generated documents (well-formed ones only), deterministic order; with `limit` a sample that depends on `seed`"""
+    import random
+    docs = []
+    seen = set()
+
+    def add(d):
+        if d not in seen:
+            seen.add(d)
+            docs.append(d)
+    for compact, multi in CONSTRUCTS:
+        for spelling in (compact, multi):
+            code = not spelling.startswith(('$', '`'))
+            for cname, tpl in CONTEXTS:
+                if not code and '#%s' not in tpl:
+                    continue
+                body = spelling
+                t = tpl % body if code else tpl.replace('#%s', '%s') % body
+                add(t)
+            if comments:
+                for g in _token_gaps(spelling):
+                    for cm in (' /* c */ ', ' // c\n'):
+                        v = spelling[:g] + cm + spelling[g:]
+                        for cname, tpl in (CONTEXTS[0], CONTEXTS[1], CONTEXTS[10]):
+                            if not code and '#%s' not in tpl:
+                                continue
+                            add(tpl % v if code else tpl.replace('#%s', '%s') % v)
+    if limit is not None and len(docs) > limit:
+        rnd = random.Random(1000 + seed)
+        docs = rnd.sample(docs, limit)
+    ok = []
+    for d in docs:
+        if S.driver.call('erroneous', hexs(d))[1] == '0':
+            ok.append(d)
+    return ok
 
 
 def in_contexts(docs):
